@@ -127,6 +127,10 @@ package mint
 //@   ensures @amount [C02,C03] err == nil ==> sum.sig.amount(seq(result), len(result)) <= old(db.mqrow)[mintTokensRequest.Quote].Amount
 //@   ensures @sigsaved [C15] err == nil && result != nil ==> (forall i :: 0 <= i && i < len(mintTokensRequest.Outputs) ==> db.sig[mintTokensRequest.Outputs[i].B_])
 //@   ensures @otherquotes [C03] forall x Str :: x != mintTokensRequest.Quote ==> db.mqrow[x] == old(db.mqrow)[x]
+// NUT-20: a quote locked to a public key is issued only with a signature of that key over the quote id and
+// the B_ of exactly the submitted outputs, in order (message = spec function cat.bm.B_, verifier proved in nut20)
+//@   calls nut20.VerifyMintQuoteSignature asserts @nut20args [C03] quoteId == mintTokensRequest.Quote && blindedMessages == mintTokensRequest.Outputs && publicKey == old(db.mqrow)[mintTokensRequest.Quote].Pubkey && hexok(mintTokensRequest.Signature) && sig.parseok(hexdec(mintTokensRequest.Signature)) && *signature == sig.parse(hexdec(mintTokensRequest.Signature))
+//@   ensures @nut20 [C03] err == nil && result != nil && old(db.mqrow)[mintTokensRequest.Quote].Pubkey != nil ==> hexok(mintTokensRequest.Signature) && sig.parseok(hexdec(mintTokensRequest.Signature)) && sig.ok(sig.parse(hexdec(mintTokensRequest.Signature)), sha256(bytesOf(cat.bm.B_(mintTokensRequest.Quote, seq(mintTokensRequest.Outputs), len(mintTokensRequest.Outputs)))), pk.pt(*old(db.mqrow)[mintTokensRequest.Quote].Pubkey))
 // a single storage error never leaves a quote ISSUED that was not issued before (no signatures were handed out)
 //@   ensures @faultrevert [C07] err != nil && db.faults == old(db.faults) + 1 && db.mq[mintTokensRequest.Quote] && old(db.mqrow)[mintTokensRequest.Quote].State != nut04.Issued ==> db.mqrow[mintTokensRequest.Quote].State != nut04.Issued
 //@   ensures @revert [C06] err != nil && db.faults == old(db.faults) ==> db.mqrow[mintTokensRequest.Quote].State == old(db.mqrow)[mintTokensRequest.Quote].State || (old(db.mqrow)[mintTokensRequest.Quote].State == nut04.Unpaid && db.mqrow[mintTokensRequest.Quote].State == nut04.Paid)
@@ -310,6 +314,9 @@ package mint
 //@   ensures @maxbalance [C16] err == nil && m.limits.MaxBalance > 0 ==> db.issuedtotal - db.redeemedtotal + mintQuoteRequest.Amount <= m.limits.MaxBalance
 //@   ensures @unpaid [C03] err == nil ==> result.State == nut04.Unpaid && result.Amount == mintQuoteRequest.Amount && db.mq[result.Id] && db.mqrow[result.Id] == result && !old(db.mq)[result.Id]
 //@   ensures @others [C03] forall q Str :: old(db.mq)[q] ==> db.mq[q] && db.mqrow[q] == old(db.mqrow)[q]
+// NUT-20: a requested lock is stored with the quote (the key the request named), and a request without one stores none
+//@   ensures @lockstored [C03] err == nil && len(mintQuoteRequest.Pubkey) > 0 ==> result.Pubkey != nil && hexok(mintQuoteRequest.Pubkey) && pk.pt(*result.Pubkey) == pt.parse(hexdec(mintQuoteRequest.Pubkey))
+//@   ensures @nolock [C03] err == nil && len(mintQuoteRequest.Pubkey) == 0 ==> result.Pubkey == nil
 
 //@ func (*Mint).RequestMeltQuote
 // rely/guarantee tier: every store step of this operation is a step the rely clauses allow
